@@ -38,6 +38,13 @@ def budget_params(b):
                     if b["blocks"][i]["term"]["k"] == "switch":
                         out.append(k)
                         break
+        if k not in out:
+            for bi, t in F.calls(b):
+                if last_seg(F.callee_name(t)) == "checked_sub" and len(t["args"]) == 2 and (F.const_int(t["args"][1]) or 0) >= 1:
+                    al = F.op_local(t["args"][0])
+                    if al is not None and fl.derives_from_arg(al, k):
+                        out.append(k)
+                        break
     return out
 
 
@@ -59,6 +66,19 @@ def budget_test_before(b, fl, k, site_bb):
                 succ = {a[1] for a in t["arms"]} | {t.get("otherwise")}
                 if any(x is not None and x != site_bb and site_bb not in cfg.reachable_from(x, avoid={i}) for x in succ):
                     return True
+        # `let Some(next) = depth.checked_sub(1) else { bail!(..) }`: the None outcome of the checked decrement is the exhausted budget
+        dl = F.op_local(t["discr"])
+        for s in bb["stmts"]:
+            if s[0] == "assign" and s[1] == [dl] and s[2][0] == "discr" and len(s[2][1]) == 1:
+                ol = s[2][1][0]
+                for d in fl.defs.get(ol, []):
+                    if d[0] == "call" and last_seg(F.callee_name(d[2])) == "checked_sub" and len(d[2]["args"]) == 2 and (F.const_int(d[2]["args"][1]) or 0) >= 1:
+                        al = F.op_local(d[2]["args"][0])
+                        if al is not None and fl.derives_from_arg(al, k):
+                            arms = {a[0]: a[1] for a in t["arms"]}
+                            none_t = arms.get(0, t.get("otherwise"))
+                            if none_t is not None and none_t != site_bb and site_bb not in cfg.reachable_from(none_t, avoid={i}):
+                                return True
     return False
 
 
